@@ -29,10 +29,22 @@ type pureObjs struct {
 	lists  []*signature.SignatureList
 	owners [][]byte
 	data   [][]byte
+	last   [2][]byte         // owner and data of the last entry of the database's SHA-256 list
+	keep   map[string][]byte // while non-nil: the byte slices returned by the first calls are kept here
+}
+
+// held remembers the slice a byte-returning method handed out (first call only, reference phase only)
+func (o *pureObjs) held(m string, b []byte) []byte {
+	if o.keep != nil {
+		if _, ok := o.keep[m]; !ok {
+			o.keep[m] = b
+		}
+	}
+	return b
 }
 
 var pureMethods = []string{"img.Hash", "img.Bytes", "img.Open", "img.Signatures", "img.Verify0", "img.Verify1",
-	"db.Bytes", "db.Marshal", "db.BytesExists0", "db.BytesExists1", "db.BytesExistsX509", "db.SigDataExists", "db.Exists", "upd.Marshal", "upd.Bytes",
+	"db.Bytes", "db.Marshal", "db.BytesExists0", "db.BytesExists1", "db.BytesExistsX509", "db.BytesExistsLast", "db.SigDataExists", "db.Exists", "upd.Marshal", "upd.Bytes",
 	"auth.Marshal", "auth.Verify0", "auth.Verify1"}
 
 func h8(b []byte) string { s := sha256.Sum256(b); return hx(s[:8]) }
@@ -40,9 +52,9 @@ func h8(b []byte) string { s := sha256.Sum256(b); return hx(s[:8]) }
 func (o *pureObjs) call(m string) string {
 	switch m {
 	case "img.Hash":
-		return h8(o.img.Hash(crypto.SHA256))
+		return h8(o.held(m, o.img.Hash(crypto.SHA256)))
 	case "img.Bytes":
-		return h8(o.img.Bytes())
+		return h8(o.held(m, o.img.Bytes()))
 	case "img.Open":
 		b, _ := io.ReadAll(o.img.Open())
 		return h8(b)
@@ -58,11 +70,13 @@ func (o *pureObjs) call(m string) string {
 		ok, err := o.img.Verify(c)
 		return fmt.Sprint(ok, err == nil)
 	case "db.Bytes":
-		return h8(o.db.Bytes())
+		return h8(o.held(m, o.db.Bytes()))
 	case "db.Marshal":
 		var b bytes.Buffer
 		o.db.Marshal(&b)
-		return h8(b.Bytes())
+		return h8(o.held(m, b.Bytes()))
+	case "db.BytesExistsLast": // the entry at the end of the (possibly long) SHA-256 list
+		return fmt.Sprint(o.db.BytesExists(signature.CERT_SHA256_GUID, guidFromWire(o.last[0]), o.last[1]))
 	case "db.BytesExists0":
 		return fmt.Sprint(o.db.BytesExists(signature.CERT_SHA256_GUID, guidFromWire(o.owners[0]), o.data[0]))
 	case "db.BytesExists1":
@@ -86,7 +100,7 @@ func (o *pureObjs) call(m string) string {
 		o.upd.Marshal(&b)
 		return h8(b.Bytes())
 	case "upd.Bytes":
-		return h8(o.upd.Bytes())
+		return h8(o.held(m, o.upd.Bytes()))
 	}
 	return "?"
 }
@@ -113,13 +127,32 @@ func init() {
 		o.img = p
 		o.owners = [][]byte{bytes.Repeat([]byte{0x11}, 16), bytes.Repeat([]byte{0x22}, 16)}
 		o.data = [][]byte{bytes.Repeat([]byte{0xaa}, 32), bytes.Repeat([]byte{0xbb}, 32), bytes.Repeat([]byte{0xcc}, 32)}
+		// the SHA-256 list: two fixed entries and `dbentries` more hashes in no particular order (a
+		// revocation list holds hundreds in the order they were enrolled), then a certificate list
+		sha := [][2][]byte{{o.owners[0], o.data[0]}, {o.owners[1], o.data[1]}}
+		for i, n := 0, atoi(a["dbentries"]); i < n; i++ {
+			h := make([]byte, 32)
+			rng.Read(h)
+			sha = append(sha, [2][]byte{o.owners[i%2], h})
+		}
+		if n := len(sha); n > 3 && bytes.Compare(sha[n-2][1], sha[n-1][1]) < 0 { // never ascending by accident
+			sha[n-2], sha[n-1] = sha[n-1], sha[n-2]
+		}
+		o.last = sha[len(sha)-1]
 		db := signature.NewSignatureDatabase()
-		db.Append(signature.CERT_SHA256_GUID, guidFromWire(o.owners[0]), o.data[0])
-		db.Append(signature.CERT_SHA256_GUID, guidFromWire(o.owners[1]), o.data[1])
-		db.Append(signature.CERT_X509_GUID, guidFromWire(o.owners[0]), cert.Raw)
 		if a["decoded"] == "1" {
-			d, _ := signature.ReadSignatureDatabase(bytes.NewReader(db.Bytes()))
+			// decoded from a stream that was encoded independently of the library
+			wire := append(encodeList(tSHA256, nil, 48, sha), encodeList(tX509, nil, len(cert.Raw)+16, [][2][]byte{{o.owners[0], cert.Raw}})...)
+			d, err := signature.ReadSignatureDatabase(bytes.NewReader(wire))
+			if err != nil {
+				return "err", "read database"
+			}
 			db = &d
+		} else {
+			for _, e := range sha {
+				db.Append(signature.CERT_SHA256_GUID, guidFromWire(e[0]), e[1])
+			}
+			db.Append(signature.CERT_X509_GUID, guidFromWire(o.owners[0]), cert.Raw)
 		}
 		o.db = db
 		sl := signature.NewSignatureList(signature.CERT_SHA256_GUID)
@@ -136,9 +169,12 @@ func init() {
 		// reference results: first call of each method on the fresh objects
 		ref := map[string]string{}
 		var diffs []string
+		o.keep = map[string][]byte{}
 		for _, m := range pureMethods {
 			ref[m] = o.call(m)
 		}
+		kept := o.keep
+		o.keep = nil
 		// sequential repetition in a random order
 		nseq := atoi(a["nseq"])
 		for i := 0; i < nseq; i++ {
@@ -171,6 +207,13 @@ func init() {
 		for _, m := range pureMethods {
 			if got := o.call(m); got != ref[m] {
 				diffs = append(diffs, fmt.Sprintf("after %s: %s != first result %s", m, got, ref[m]))
+			}
+		}
+		// the byte slices the first calls returned are still held by the caller: all the later calls
+		// must not have changed them (a result must not share memory with the object or later results)
+		for _, m := range pureMethods {
+			if b, ok := kept[m]; ok && h8(b) != ref[m] {
+				diffs = append(diffs, fmt.Sprintf("held %s: the slice returned by the first call now reads %s, it was %s", m, h8(b), ref[m]))
 			}
 		}
 		refs := []string{}
@@ -210,8 +253,8 @@ func c19Eval(c *Ctx, cs Case) {
 		img = buildPE(s).img
 	}
 	res := w.Do("pure.run", map[string]string{"verif": c.VerifDir, "img": hx(img), "seed": fmt.Sprint(cs.I("seed2")), "nseq": fmt.Sprint(cs.I("nseq")),
-		"goroutines": fmt.Sprint(cs.I("goroutines")), "ncalls": fmt.Sprint(cs.I("ncalls")), "reparse": fmt.Sprint(cs.I("reparse")), "decoded": fmt.Sprint(cs.I("decoded"))}, 120*time.Second)
-	c.Count(cs.Key(), true, fmt.Sprintf("pure/g%d/%s", cs.I("goroutines"), res.Class))
+		"goroutines": fmt.Sprint(cs.I("goroutines")), "ncalls": fmt.Sprint(cs.I("ncalls")), "reparse": fmt.Sprint(cs.I("reparse")), "decoded": fmt.Sprint(cs.I("decoded")), "dbentries": fmt.Sprint(cs.I("dbentries"))}, 120*time.Second)
+	c.Count(cs.Key(), true, fmt.Sprintf("pure/g%d/db%d/%s", cs.I("goroutines"), 2+cs.I("dbentries"), res.Class))
 	c.Sample(Case{"goroutines": cs.I("goroutines"), "ncalls": cs.I("ncalls"), "nseq": cs.I("nseq"), "result": clip(res.Out)})
 	fail := func(what string) {
 		c.Fail(Failure{Kind: "property", What: what, Case: cs, Go: clip(res.Class + " " + res.Out + " " + w.stderr.String())})
@@ -242,14 +285,15 @@ func c19Gen(c *Ctx) {
 		cs["ncalls"] = int64(map[bool]int{false: 25, true: 100}[c.Thorough])
 		cs["reparse"] = int64(i % 2)
 		cs["decoded"] = int64((i / 2) % 2)
+		cs["dbentries"] = int64([]int{0, 62, 300, 63, 1000, 126}[i%6]) // SHA-256 list of 2, 64, 302, 65, 1002, 128 entries
 		c19Eval(c, cs)
 	}
-	c19Eval(c, Case{"op": "pure", "path": "authenticode/testdata/test.pecoff", "seed2": int64(7), "nseq": int64(40), "goroutines": int64(8), "ncalls": int64(map[bool]int{false: 25, true: 100}[c.Thorough]), "reparse": int64(0), "decoded": int64(1)})
+	c19Eval(c, Case{"op": "pure", "path": "authenticode/testdata/test.pecoff", "seed2": int64(7), "nseq": int64(40), "goroutines": int64(8), "ncalls": int64(map[bool]int{false: 25, true: 100}[c.Thorough]), "reparse": int64(0), "decoded": int64(1), "dbentries": int64(198)})
 }
 
 func init() {
 	register("C19", &PropDef{
-		Rule:   "for each of several signed images (generated layouts and a repository binary; parsed-and-signed in place or re-parsed from bytes), a database (built or decoded) and a signed-update value: the 18 read-only methods (image: Hash, Bytes, Open, Signatures, Verify x2; database: Bytes, Marshal, BytesExists x3 incl. a type whose list is not the first, SigDataExists, Exists; signed update: Marshal, Bytes; its decoded descriptor: Marshal, Verify x2) are called once for reference, then 40 times sequentially in random order, then from 2/4/8/16 goroutines (25..100 random calls each) on the SAME objects, then once more each; every result must equal the first. The worker is the -race build, so any data race aborts the run. Every case is non-trivial; distinct = distinct (image, schedule seed, goroutine count).",
+		Rule:   "for each of several signed images (generated layouts and a repository binary; parsed-and-signed in place or re-parsed from bytes), a database (built through Append, or decoded from an independently encoded stream; its SHA-256 list holds 2, 64, 65, 128, 200, 302 or 1002 hashes in no particular order, followed by a certificate list) and a signed-update value: the 19 read-only methods (image: Hash, Bytes, Open, Signatures, Verify x2; database: Bytes, Marshal - both BEFORE any query -, BytesExists x4 incl. a type whose list is not the first and the last entry of the long list, SigDataExists, Exists; signed update: Marshal, Bytes; its decoded descriptor: Marshal, Verify x2) are called once for reference, then 40 times sequentially in random order, then from 2/4/8/16 goroutines (25..100 random calls each) on the SAME objects, then once more each; every result must equal the first, and the byte slices returned by the first Hash / Bytes / Marshal calls, held throughout, must still read the same at the end. The worker is the -race build, so any data race aborts the run. Every case is non-trivial; distinct = distinct (image, schedule seed, goroutine count).",
 		Assume: []string{"data-race freedom under the Go memory model is a runtime fact: the race detector observes the schedules that happen to occur in the sampled runs"},
 		Eval:   c19Eval, Gen: c19Gen,
 	})
